@@ -45,7 +45,7 @@ import (
 
 // ---- the parsers under test ----------------------------------------------------
 
-const boundMax = 3 // the bounded builder used throughout: texts/blobs of at most 3 bytes
+const boundMax = 1 // the bounded builder used throughout: texts/blobs of at most 1 byte (so that over-long values are within the enumerated lengths)
 
 var bounded = literal.NewBoundedBuilder(boundMax)
 
@@ -244,12 +244,52 @@ const (
 	predDelim = `"@[`
 )
 
+// The conditions below describe the input relative to where the parser under
+// test splits it: at the first occurrence of the separator (unchanged tree) or
+// at the last one (after fixes/C05-*-parse-last-delimiter.patch). Which one is
+// in force is found out by one probe parse per separator at start-up; the
+// probe selects the classifier's vocabulary only, never a verdict.
+var (
+	litIndex  = strings.Index
+	predIndex = strings.Index
+)
+
+func calibrate(r *common.Run) {
+	mode := func(last bool) string {
+		if last {
+			return "last-occurrence"
+		}
+		return "first-occurrence"
+	}
+	litLast, predLast := false, false
+	vals.Guard(func() {
+		if l, err := literal.DefaultBuilder().Parse(`"a"^^type:x"^^type:text`); err == nil && l != nil && l.Type() == literal.Text {
+			litLast = true
+		}
+	})
+	vals.Guard(func() {
+		if p, err := predicate.Parse(`"@["@[]`); err == nil && p != nil && p.ID() == "@[" {
+			predLast = true
+		}
+	})
+	if litLast {
+		litIndex = strings.LastIndex
+	}
+	if predLast {
+		predIndex = strings.LastIndex
+	}
+	if r != nil {
+		r.Set("classifier_literal_separator", mode(litLast))
+		r.Set("classifier_predicate_separator", mode(predLast))
+	}
+}
+
 // literalCond names the first applicable condition of a literal text.
 func literalCond(raw string) string {
 	if raw == "" || raw[0] != '"' {
 		return ""
 	}
-	idx := strings.Index(raw, litDelim)
+	idx := litIndex(raw, litDelim)
 	if idx < 0 {
 		return ""
 	}
@@ -270,7 +310,7 @@ func predicateCond(raw string) string {
 	if raw == "" || raw[0] != '"' {
 		return ""
 	}
-	idx := strings.Index(raw, predDelim)
+	idx := predIndex(raw, predDelim)
 	if idx < 0 {
 		return ""
 	}
@@ -640,10 +680,10 @@ func readerLines(thorough bool) []line {
 		{Name: "truncated-triple", Text: "/t<a>\t\"p\"@[]", kind: "malformed"},
 		{Name: "unknown-literal-type", Text: "/t<a>\t\"p\"@[]\t\"1\"^^type:foo", kind: "malformed"},
 		{Name: "separators-out-of-order", Text: "] /> \"", kind: "malformed"},
+		{Name: "empty-blob-brackets-missing", Text: "/t<a>\t\"p\"@[]\t\"\"^^type:blob", kind: "malformed"},
 	}
 	if thorough {
 		ls = append(ls,
-			line{Name: "empty-blob-brackets-missing", Text: "/t<a>\t\"p\"@[]\t\"\"^^type:blob", kind: "malformed"},
 			line{Name: "bad-anchor", Text: "/t<a>\t\"p\"@[yesterday]\t/t<b>", kind: "malformed"})
 	}
 	return ls
@@ -801,6 +841,7 @@ func main() {
 		pprof.StartCPUProfile(w)
 	}
 	r := common.Start("C15", "model_checking")
+	calibrate(r)
 	r.Replayer("parse", func(raw json.RawMessage) (bool, string) {
 		var c pcase
 		if err := json.Unmarshal(raw, &c); err != nil {
@@ -818,6 +859,9 @@ func main() {
 			common.Machinery("bad case: %v", err)
 		}
 		ok, _, sh, d := checkReader(readerLines(true), c)
+		if ok {
+			return true, fmt.Sprintf("reader loads exactly the valid lines before the first malformed one for %v", c.Lines)
+		}
 		return ok, sh + ": " + d
 	})
 	r.MaybeReplay()
